@@ -238,7 +238,8 @@ def make_drillhole(ws, parent=None, name="Drillhole", collar=(0.0, 10.0, 10.0)):
         ws,
         collar=np.array(collar),
         surveys=np.array([[0.0, 45.0, -90.0], [50.0, 45.0, -80.0], [100.0, 45.0, -75.0]]),
-        cost=12.5,
+        cost=12,  # python ints on purpose: the first stored kind of a numeric scalar is an integer,
+        end_of_hole=120,  # later assignments of fractional values must still be read back exactly
         planning="Ongoing",
         **_kw(parent, name),
     )
